@@ -1,3 +1,146 @@
-Require Import IP.Heap.BasicHeap.
-Theorem C11_placeholder : True. Proof. exact I. Qed.
-Print Assumptions C11_placeholder.
+(* Props/C11.v — a finished node never changes; reads are repeatable.
+   Property theorems only: each is closed by [exact] of a lemma proved in coq/Proofs/Heap*.v.
+
+   Model: coq/Heap/GoMem.v (heap, append semantics, readers), coq/Heap/BasicHeap.v (node/basicnode
+   and the subset matcher as heap programs), coq/Heap/Script.v (library clients as API call sequences).
+   A history is a list of API calls ([prim]) whose operands are the handles earlier calls returned.
+   [legalh] = the call orders the builder contract allows (no Begin on a finished assembler, no
+   second Assign on a scalar builder, no Build before Assign) and no caller writes into byte slices.
+   [read_obs ps r a] = what accessor [a] of node [r] returns in state [ps]. *)
+Require Import IP.Base.Bytes IP.DM.Value IP.Heap.GoMem IP.Heap.BasicHeap.
+Require Import IP.Proofs.HeapLogic IP.Proofs.HeapOps IP.Proofs.HeapPrims IP.Proofs.HeapC11.
+From Coq Require Import List ZArith Bool.
+Import ListNotations.
+Local Open Scope nat_scope.
+
+(* The full statement: for every Legal history, every node handed out during a prefix of it, and
+   every accessor, the read returns the same before and after the rest of the history. *)
+Definition C11_full (cf : cfg) : Prop :=
+  forall hs1 hs2, legalh cf pinit (hs1 ++ hs2) = true ->
+  forall r, known_b (kn (runh cf pinit hs1)) (HNode r) = true ->
+  forall a, read_obs cf (runh cf pinit hs1) r a = read_obs cf (runh cf pinit (hs1 ++ hs2)) r a.
+
+(* It holds — for every append growth policy — once streamBytes reads are position-independent
+   (the repaired tree: fixes/streambytes-rewind.diff). *)
+Theorem C11_stable : forall cf, cf_stream_shared cf = false -> C11_full cf.
+Proof. intros cf H hs1 hs2 Hl r Hk a. apply stable_gen; auto. Qed.
+Print Assumptions C11_stable.
+
+(* On the pinned tree it holds for every accessor except AsBytes / AsLargeBytes of a streamBytes
+   node (in particular for every node that is not a streamBytes, and for Kind, Length, lookups and
+   iteration of every node). *)
+Theorem C11_stable_partial : forall cf hs1 hs2, legalh cf pinit (hs1 ++ hs2) = true ->
+  forall r, known_b (kn (runh cf pinit hs1)) (HNode r) = true ->
+  forall a, stream_acc r a = false ->
+  read_obs cf (runh cf pinit hs1) r a = read_obs cf (runh cf pinit (hs1 ++ hs2)) r a.
+Proof. intros cf hs1 hs2 Hl r Hk a Hs. apply stable_gen; auto. Qed.
+Print Assumptions C11_stable_partial.
+
+(* Two reads of the same accessor are equal (the second read is performed in the state the first left). *)
+Theorem C11_repeat : forall cf, cf_stream_shared cf = false ->
+  forall hs, legalh cf pinit hs = true ->
+  forall r, known_b (kn (runh cf pinit hs)) (HNode r) = true ->
+  forall a, read_obs cf (runh cf pinit hs) r a =
+            read_obs cf (fst (pstep cf (runh cf pinit hs) (PRead (HNode r) a))) r a.
+Proof. intros cf H hs Hl r Hk a. apply repeat_gen; auto. Qed.
+Print Assumptions C11_repeat.
+
+Theorem C11_repeat_partial : forall cf hs, legalh cf pinit hs = true ->
+  forall r, known_b (kn (runh cf pinit hs)) (HNode r) = true ->
+  forall a, stream_acc r a = false ->
+  read_obs cf (runh cf pinit hs) r a =
+  read_obs cf (fst (pstep cf (runh cf pinit hs) (PRead (HNode r) a))) r a.
+Proof. intros cf hs Hl r Hk a Hs. apply repeat_gen; auto. Qed.
+Print Assumptions C11_repeat_partial.
+
+(* The ownership invariant behind both: along every Legal history there is a tagging of the heap
+   under which every backing array / map / struct is either owned by exactly one unfinished assembler
+   or frozen, frozen cells refer to frozen cells only, and every node the client holds is frozen. *)
+Theorem C11_ownership_invariant : forall cf hs, legalh cf pinit hs = true ->
+  exists tg, Inv tg (hp (runh cf pinit hs)) /\
+             Forall (fun hd => handle_ok hd tg (hp (runh cf pinit hs))) (kn (runh cf pinit hs)).
+Proof. exact legal_history_invariant. Qed.
+Print Assumptions C11_ownership_invariant.
+
+(* ---- the pinned tree violates the full statement: streamBytes ---- *)
+
+Definition w_slice3 : slice := {| s_arr := Some (0, 0); s_off := 0; s_len := 3; s_cap := 3 |}.
+Definition w_slice4 : slice := {| s_arr := Some (0, 0); s_off := 0; s_len := 4; s_cap := 4 |}.
+
+(* basicnode.Prototype.Bytes.NewBuilder().AssignNode(basicnode.NewBytes("abc")); Build() *)
+Definition w_stream_builder : list prim :=
+  [PNewSlice [97; 98; 99]%N; PNewBytesNode (HSlice w_slice3); PNewBuilder PrBytes;
+   PAssignNode (HBuilder (0, 1)) (HNode (RBytesP w_slice3)); PBuild (HBuilder (0, 1))].
+
+(* a subset matcher over a bytes node *)
+Definition w_stream_subset : list prim :=
+  [PNewSlice [97; 98; 99; 100]%N; PNewBytesNode (HSlice w_slice4);
+   PMatchSubset (HNode (RBytesP w_slice4)) 1 3].
+
+Theorem C11_refuted_stream :
+  legalh cfg_pinned pinit w_stream_builder = true /\
+  known_b (kn (runh cfg_pinned pinit w_stream_builder)) (HNode (RStream (0, 2))) = true /\
+  read_obs cfg_pinned (runh cfg_pinned pinit w_stream_builder) (RStream (0, 2)) ABytes
+    = RDone (PAcc (XBytes [97; 98; 99]%N None)) /\
+  read_obs cfg_pinned (fst (pstep cfg_pinned (runh cfg_pinned pinit w_stream_builder) (PRead (HNode (RStream (0, 2))) ABytes)))
+           (RStream (0, 2)) ABytes
+    = RDone (PAcc (XBytes [] None)).
+Proof. vm_compute. repeat split. Qed.
+Print Assumptions C11_refuted_stream.
+
+Theorem C11_refuted_stream_subset :
+  legalh cfg_pinned pinit w_stream_subset = true /\
+  known_b (kn (runh cfg_pinned pinit w_stream_subset)) (HNode (RStream (0, 2))) = true /\
+  read_obs cfg_pinned (runh cfg_pinned pinit w_stream_subset) (RStream (0, 2)) ABytes
+    = RDone (PAcc (XBytes [98; 99]%N None)) /\
+  read_obs cfg_pinned (fst (pstep cfg_pinned (runh cfg_pinned pinit w_stream_subset) (PRead (HNode (RStream (0, 2))) ABytes)))
+           (RStream (0, 2)) ABytes
+    = RDone (PAcc (XBytes [] None)).
+Proof. vm_compute. repeat split. Qed.
+Print Assumptions C11_refuted_stream_subset.
+
+Theorem C11_full_refuted_pinned : ~ C11_full cfg_pinned.
+Proof.
+  intros F.
+  specialize (F w_stream_builder [PRead (HNode (RStream (0, 2))) ABytes] eq_refl (RStream (0, 2)) eq_refl ABytes).
+  vm_compute in F. discriminate F.
+Qed.
+Print Assumptions C11_full_refuted_pinned.
+
+(* the same histories on the repaired configuration read "abc" both times *)
+Example C11_repaired_stream_reads :
+  read_obs cfg_repaired (fst (pstep cfg_repaired (runh cfg_repaired pinit w_stream_builder) (PRead (HNode (RStream (0, 2))) ABytes)))
+           (RStream (0, 2)) ABytes
+    = RDone (PAcc (XBytes [97; 98; 99]%N None)).
+Proof. vm_compute. reflexivity. Qed.
+
+(* ---- the hypotheses are satisfiable, and Legal excludes what it must ---- *)
+
+(* a list built with spare capacity, shared by the AssignNode shortcut, its builder reset and reused *)
+Definition w_sharing : list prim :=
+  [PNewBuilder PrList; PBeginList (HBuilder (0, 1)) 4; PAssembleValue (HListAsm (0, 1));
+   PAssign (HValL (0, 1)) (AvScalar (SInt 1)); PFinish (HListAsm (0, 1)); PBuild (HBuilder (0, 1));
+   PNewBuilder PrList; PAssignNode (HBuilder (0, 5)) (HNode (RList (0, 0))); PBuild (HBuilder (0, 5));
+   PReset (HBuilder (0, 1)); PBeginList (HBuilder (0, 1)) 0; PAssembleValue (HListAsm (0, 1));
+   PAssign (HValL (0, 1)) (AvScalar (SInt 7)); PFinish (HListAsm (0, 1)); PBuild (HBuilder (0, 1))].
+
+Example C11_hypotheses_satisfiable :
+  legalh cfg_pinned pinit w_sharing = true /\
+  known_b (kn (runh cfg_pinned pinit (firstn 6 w_sharing))) (HNode (RList (0, 0))) = true /\
+  read_obs cfg_pinned (runh cfg_pinned pinit w_sharing) (RList (0, 0)) ALength = RDone (PAcc (XLen 1)) /\
+  read_obs cfg_pinned (runh cfg_pinned pinit w_sharing) (RList (0, 4)) ALength = RDone (PAcc (XLen 1)).
+Proof. vm_compute. repeat split. Qed.
+
+(* misuse the contract forbids: BeginMap on a builder after Build without Reset overwrites the
+   tables of the node already returned — such a history is not Legal *)
+Definition w_misuse : list prim :=
+  [PNewBuilder PrMap; PBeginMap (HBuilder (0, 1)) 1; PAssembleEntry (HMapAsm (0, 1)) [107]%N;
+   PAssign (HValM (0, 1)) (AvScalar (SInt 1)); PFinish (HMapAsm (0, 1)); PBuild (HBuilder (0, 1))].
+
+Example C11_misuse_is_outside_legal :
+  legalh cfg_pinned pinit w_misuse = true /\
+  legalh cfg_pinned pinit (w_misuse ++ [PBeginMap (HBuilder (0, 1)) 0]) = false /\
+  read_obs cfg_pinned (runh cfg_pinned pinit w_misuse) (RMap (0, 0)) ALength = RDone (PAcc (XLen 1)) /\
+  read_obs cfg_pinned (runh cfg_pinned pinit (w_misuse ++ [PBeginMap (HBuilder (0, 1)) 0])) (RMap (0, 0)) ALength
+    = RDone (PAcc (XLen 0)).
+Proof. vm_compute. repeat split. Qed.
